@@ -16,7 +16,7 @@ P0 == [tag |-> -1, optional |-> FALSE, explicit |-> FALSE, set |-> FALSE, st |->
 PT(t, opt, ex) == [tag |-> t, optional |-> opt, explicit |-> ex = "explicit", set |-> ex = "set", st |-> 0, open |-> FALSE]
 \* canonical model values for the kinds the model can build itself
 Leaf(kind, x) ==
-  CASE kind \in {"int", "int32"} -> [k |-> "int", absent |-> FALSE, v |-> x]
+  CASE kind \in {"int", "int32", "goint"} -> [k |-> "int", absent |-> FALSE, v |-> x]
     [] kind = "enum" -> [k |-> "enum", absent |-> FALSE, v |-> x]
     [] kind = "bool" -> [k |-> "bool", absent |-> FALSE, v |-> TRUE]
     [] kind = "null" -> [k |-> "null", absent |-> FALSE, v |-> TRUE]
@@ -35,6 +35,7 @@ Members2 == {<<[kind |-> a, tag |-> tp[1], opt |-> oa, present |-> TRUE, extra |
 Cases ==
      {[mode |-> "prim", type |-> "int", val |-> x] : x \in IntVals}
   \cup {[mode |-> "prim", type |-> "enum", val |-> x] : x \in IntVals}
+  \cup {[mode |-> "prim", type |-> "goint", val |-> x] : x \in IntVals}      \* Go's platform int: the same INTEGER
   \cup {[mode |-> "prim", type |-> t, n |-> n] : t \in {"octets", "utf8"}, n \in Lens}
   \cup {[mode |-> "prim", type |-> "bits", n |-> n] : n \in BitLens}
   \cup {[mode |-> "prim", type |-> t, n |-> n] : t \in {"bool"}, n \in {0, 1}}
@@ -61,7 +62,7 @@ ShapeNode(c) ==
      ELSE [k |-> "choice", absent |-> FALSE, p |-> P0, kids |-> kids,
            present |-> IF \E i \in 1..Len(kids) : ~kids[i].absent THEN CHOOSE i \in 1..Len(kids) : ~kids[i].absent ELSE 0]
 Modelled(c) == c.mode = "shape" /\ \A i \in 1..Len(c.members) :
-                 c.members[i].kind \in {"int", "int32", "enum", "bool", "null", "octets", "utf8", "ia5", "graphic", "bits"}
+                 c.members[i].kind \in {"int", "goint", "int32", "enum", "bool", "null", "octets", "utf8", "ia5", "graphic", "bits"}
 \* two's complement inverse of IntContent
 RECURSIVE FromOcts(_, _, _)
 FromOcts(o, i, acc) == IF i > Len(o) THEN acc ELSE FromOcts(o, i + 1, MAdd(MMulSmall(acc, 256), MOfNat(o[i])))
@@ -69,7 +70,7 @@ DecInt(o) == IF o[1] < 128 THEN [neg |-> FALSE, mag |-> FromOcts(o, 1, <<>>)]
              ELSE SNorm([neg |-> TRUE, mag |-> MSub(P256(Len(o)), FromOcts(o, 1, <<>>))])
 InvReference ==
   done =>
-    /\ (case.mode = "prim" /\ case.type \in {"int", "enum"} =>
+    /\ (case.mode = "prim" /\ case.type \in {"int", "enum", "goint"} =>
           LET c == IntContent(case.val) IN
           /\ SEq(DecInt(c), case.val)
           /\ WellFormedTLV(TLV(0, FALSE, 2, c)))
